@@ -62,6 +62,9 @@ void BrentOneDimension::doInit(const ParameterList& params)
   else
   {
     bracket = OneDimensionOptimizationTools::inwardBracketMinimum(_xinf, _xsup, function(), getParameters());
+    // The inward search returns the two ends in a and b and the best inner point in c: reorder as (end, middle, end).
+    std::swap(bracket.b.x, bracket.c.x);
+    std::swap(bracket.b.f, bracket.c.f);
   }
 
   if (getVerbose() > 0)
